@@ -4,6 +4,7 @@ from facts import origins, callee_name, op_place, op_const, Broken, strip_generi
 import c01
 from c16 import operand_fields
 import emit
+import roles
 
 VM = 'yarel::vm::Vm::'
 SANCTIONED = {VM + 'unwind_stack', VM + 'try_handle_error'}
@@ -180,7 +181,7 @@ def x3(rep, w):
             pl = op_place(t['args'][0])
             if pl is None:
                 continue
-            if any('frames' in q for q in org.get(pl['l'], ())):
+            if any(roles.resolve(w)['frames'] in q for q in org.get(pl['l'], ())):
                 hits.append((bi, name))
         if not hits:
             continue
@@ -203,7 +204,7 @@ def x3(rep, w):
             sn = strip_generics(name)
             if sn in ('std::vec::Vec::pop', 'std::vec::Vec::truncate', 'std::vec::Vec::clear', 'std::vec::Vec::retain', 'std::vec::Vec::drain'):
                 pl = op_place(t['args'][0])
-                if pl is not None and any('exc_handlers' in q for q in (org or {}).get(pl['l'], ())):
+                if pl is not None and any(roles.resolve(w)['handlers'] in q for q in (org or {}).get(pl['l'], ())):
                     touches = True
         r.check(touches, f.path, 'call frames are removed (%s) but the handlers those frames registered stay on exc_handlers: a later throw is '
                 'delivered to a catch address inside a function that has already returned' % hits[0][1].rsplit('::', 1)[-1],
@@ -466,7 +467,7 @@ def x9(rep, w, rid='X9'):
             if nm in ('std::vec::Vec::truncate', 'std::vec::Vec::pop', 'std::vec::Vec::push', 'std::vec::Vec::clear', 'std::vec::Vec::remove') and t['args']:
                 if org is None:
                     org = origins(f)
-                if 'frames' in operand_fields(f, org, t['args'][0]):
+                if roles.resolve(w)['frames'] in operand_fields(f, org, t['args'][0]):
                     ev.append((bi, 'frames.' + nm.rsplit('::', 1)[-1]))
             if callee_name(t) == 'yarel::object::ObjFiber::push_call_frame':
                 ev.append((bi, 'push_call_frame'))
@@ -566,10 +567,12 @@ def x10(rep, w):
                 fty = c.tstr(fd['t'])
         nests = fty is not None and (fty.startswith('std::vec::Vec<') or 'Stack<' in fty)
         if (adt, fld) in (('yarel::vm::Vm', 'fiber'), ('yarel::vm::Vm', 'unsafe_fiber'), ('yarel::vm::Vm', 'ip'), ('yarel::object::ObjFiber', 'stack'),
-                          ('yarel::object::ObjFiber', 'frames'), ('yarel::object::ObjFiber', 'exc_handlers')):
+                          ('yarel::object::ObjFiber', roles.resolve(w)['frames']), ('yarel::object::ObjFiber', roles.resolve(w)['handlers'])):
             continue     # the machine itself (active fiber, ip, stacks), not an outcome
-        r.check(nests, '%s.%s (%s)' % (adt.rsplit('::', 1)[-1], fld, fty), 'finally-entry state kept in a single slot of type %s: a try statement that completes while the finally block is '
-                'still running (in a callee or nested in the block) overwrites, clears or consumes it' % fty)
+        # keyed by what the slot holds, not by how the field happens to be called or typed today
+        what = 'exception-in-flight flag' if fty == 'bool' else ('parked return value' if 'Value' in (fty or '') else 'parked return address')
+        r.check(nests, '%s kept in a single slot' % what, 'finally-entry state (%s.%s: %s) is one slot: a try statement that completes while the finally block is '
+                'still running (in a callee or nested in the block) overwrites, clears or consumes it' % (adt.rsplit('::', 1)[-1], fld, fty))
 
 
 def x11(rep, w, rid='X11', prop='C08'):
@@ -580,13 +583,13 @@ def x11(rep, w, rid='X11', prop='C08'):
     ef = w.require_fn(VM + 'end_finally_impl', prop)
     reads, _ = field_accesses(w, ef)
     _, uw = field_accesses(w, w.require_fn(VM + 'unwind_stack', prop))
-    flags = sorted(x for x in reads & uw if x[0] in ('yarel::vm::Vm', 'yarel::object::ObjFiber') and x[1] not in ('fiber', 'unsafe_fiber', 'ip', 'stack', 'frames', 'exc_handlers', 'error_ip'))
+    flags = sorted(x for x in reads & uw if x[0] in ('yarel::vm::Vm', 'yarel::object::ObjFiber') and x[1] not in (roles.resolve(w)['frames'], roles.resolve(w)['handlers'], 'fiber', 'unsafe_fiber', 'ip', 'stack', 'frames', 'exc_handlers', 'error_ip'))
     if not flags:
         r.ok('no exception-in-flight state outside the frames')
         return
     _, rw = field_accesses(w, ri)
     for (adt, fld) in flags:
-        r.check((adt, fld) in rw, 'return_impl resets %s.%s' % (adt.rsplit('::', 1)[-1], fld),
+        r.check((adt, fld) in rw, 'return_impl resets the exception-in-flight state',
                 'return_impl removes the frame whose finally block was running but leaves %s.%s as it was: the next EndFinally anywhere re-raises whatever is on top of the stack, '
                 'and the recorded throw site points into the discarded function' % (adt.rsplit('::', 1)[-1], fld), ri.loc())
 
